@@ -3,10 +3,10 @@
 (* feature value, every pair (thorough), each with every string class at      *)
 (* every string site.                                                          *)
 EXTENDS CellMLAbstract, TraceIO
-CONSTANT Scope    \* "singles" | "pairs"
+CONSTANT Scope    \* "singles" | "pairs" | "triples" (pairs plus all triples of the structural dimensions)
 VARIABLE fv
 Candidates == IF Scope = "singles" THEN Singles \cup Vary3("site", "cls", "ids") \cup Vary3("site", "cls", "imports")
-              ELSE Pairs \cup Vary3("site", "cls", "ids") \cup Vary3("site", "cls", "imports") \cup Vary3("site", "cls", "reset") \cup Vary3("site", "cls", "mapIds") \cup Vary3("site", "cls", "connId")
+              ELSE (IF Scope = "triples" THEN Triples({"prefix", "exp", "mult", "depth", "nmaps", "mapIds", "connId", "pairs", "reset", "imports", "ids"}) ELSE {}) \cup Pairs \cup Vary3("site", "cls", "ids") \cup Vary3("site", "cls", "imports") \cup Vary3("site", "cls", "reset") \cup Vary3("site", "cls", "mapIds") \cup Vary3("site", "cls", "connId")
 Init == fv \in {f \in Candidates : Sensible(f) /\ ~f.twin}   \* names are unique in C02's domain
 Next == UNCHANGED fv
 Spec == Init /\ [][Next]_fv
